@@ -45,6 +45,7 @@ const SERVER_PATTERNS: &[&str] = &[
     "padded-data-flood",
     "abandon-accepted",
     "answered-then-reset-by-peer",
+    "tiny-data-flood-between-abandoned-uploads",
     "unit-flood",
     "unit-flood",
     "unit-flood",
@@ -167,6 +168,36 @@ pub fn build(c: &FloodCase, n: usize) -> RawCase {
                 r.abandon = true;
                 reqs.push(r);
                 script.push(hdr(id, "POST", false));
+                if every > 0 && i % every == 0 {
+                    script.push(PStep::Yield(2));
+                }
+            }
+        }
+        "tiny-data-flood-between-abandoned-uploads" => {
+            // a body the application holds but does not read receives 1-byte DATA frames; in between, short uploads
+            // (HEADERS + a final DATA frame of a few bytes) that the application lets go of unread
+            let mut r = default_req(1);
+            r.resp_delay = PARK;
+            r.req_reader = Reader::Deferred(PARK);
+            reqs.push(r);
+            script.push(hdr(1, "POST", false));
+            script.push(PStep::Yield(20));
+            flood_at = script.len();
+            next = 3;
+            let per = 1 + pr.below(3);
+            let fin = *pr.pick(&[0usize, 1, 1, 5]);
+            let every = *pr.pick(&[0usize, 1, 8]);
+            for i in 0..n {
+                for _ in 0..per {
+                    script.push(fr(Frame::Data { stream: 1, end_stream: false, pad: None, data: vec![7u8] }));
+                }
+                let id = next;
+                next += 2;
+                let mut r = default_req(id);
+                r.abandon = true;
+                reqs.push(r);
+                script.push(hdr(id, "POST", false));
+                script.push(fr(Frame::Data { stream: id, end_stream: true, pad: None, data: vec![9u8; fin] }));
                 if every > 0 && i % every == 0 {
                     script.push(PStep::Yield(2));
                 }
@@ -510,7 +541,7 @@ impl Engine for FloodEngine {
         cfg.reset_dur_zero = t.chance(1, 4);
         let heavy = matches!(pattern.as_str(), "data-on-closed-streams" | "headers-then-reset-by-error");
         let block_writes = matches!(pattern.as_str(), "ping-flood" | "settings-flood" | "open-and-reset" | "data-on-closed-streams" | "headers-then-reset-by-error" | "abandon-accepted" | "streams-over-limit" | "unit-flood" | "answered-then-reset-by-peer") && t.bool();
-        if matches!(pattern.as_str(), "abandon-accepted" | "unit-flood" | "answered-then-reset-by-peer") && cfg.max_concurrent.is_none() {
+        if matches!(pattern.as_str(), "abandon-accepted" | "unit-flood" | "answered-then-reset-by-peer" | "tiny-data-flood-between-abandoned-uploads") && cfg.max_concurrent.is_none() {
             // (streams the peer may legitimately keep open are bounded only by a configured limit)
             cfg.max_concurrent = Some(*t.pick(&[1u32, 2, 5, 20, 100]));
         }
